@@ -94,18 +94,37 @@ Print Assumptions C05_cp_range_rules.
 
 Theorem C05_mask_accept_iff : forall H G m c1 c2 c r,
   mask_verify H G m c1 c2 c r = Accept <->
-  check_element G c1 = true /\ check_element G c2 = true /\
+  check_element G m = true /\ check_element G c1 = true /\ check_element G c2 = true /\
   exists mi, invm m (gp G) = Some mi /\ cp_verify H G c1 ((mi * c2) mod gp G) (gg G) (gh G) c r true = Accept.
 Proof. exact mask_accept_iff. Qed.
 Print Assumptions C05_mask_accept_iff.
 
 Theorem C05_remask_accept_iff : forall H G c1 c2 d1 d2 c r,
   remask_verify H G c1 c2 d1 d2 c r = Accept <->
-  check_element G d1 = true /\ check_element G d2 = true /\
+  check_element G c1 = true /\ check_element G c2 = true /\ check_element G d1 = true /\ check_element G d2 = true /\
   exists i1 i2, invm c1 (gp G) = Some i1 /\ invm c2 (gp G) = Some i2 /\
     cp_verify H G ((i1 * d1) mod gp G) ((i2 * d2) mod gp G) (gg G) (gh G) c r true = Accept.
 Proof. exact remask_accept_iff. Qed.
 Print Assumptions C05_remask_accept_iff.
+
+(* membership rules (38c5983, e22f683, fdc4557): every group element a masking / re-masking / OR statement speaks about
+   lies in (0,p) and in the order-q subgroup -- a non-member or out-of-range public input is refused, not reduced *)
+Theorem C05_mask_member_rules : forall H G m c1 c2 c r, mask_verify H G m c1 c2 c r = Accept ->
+  (0 < m < gp G /\ powm m (gq G) (gp G) = 1) /\ (0 < c1 < gp G /\ powm c1 (gq G) (gp G) = 1) /\
+  (0 < c2 < gp G /\ powm c2 (gq G) (gp G) = 1).
+Proof. exact mask_member_rules. Qed.
+Print Assumptions C05_mask_member_rules.
+
+Theorem C05_remask_member_rules : forall H G c1 c2 d1 d2 c r, remask_verify H G c1 c2 d1 d2 c r = Accept ->
+  (0 < c1 < gp G /\ powm c1 (gq G) (gp G) = 1) /\ (0 < c2 < gp G /\ powm c2 (gq G) (gp G) = 1) /\
+  (0 < d1 < gp G /\ powm d1 (gq G) (gp G) = 1) /\ (0 < d2 < gp G /\ powm d2 (gq G) (gp G) = 1).
+Proof. exact remask_member_rules. Qed.
+Print Assumptions C05_remask_member_rules.
+
+Theorem C05_or_member_rules : forall H G y1 y2 g1 g2 c1 c2 r1 r2, or_verify H G y1 y2 g1 g2 c1 c2 r1 r2 = Accept ->
+  (0 < y1 < gp G /\ powm y1 (gq G) (gp G) = 1) /\ (0 < y2 < gp G /\ powm y2 (gq G) (gp G) = 1).
+Proof. exact or_member_rules. Qed.
+Print Assumptions C05_or_member_rules.
 
 Theorem C05_decrypt_accept_iff : forall H G c1 hj dj c r,
   decrypt_verify H G c1 hj dj c r = Accept <->
@@ -180,10 +199,11 @@ Theorem C05_invm_spec : forall a p i, 1 < p -> invm a p = Some i -> 0 <= i < p /
 Proof. exact invm_spec. Qed.
 Print Assumptions C05_invm_spec.
 
-(* OR proof (code after fae6d38) *)
+(* OR proof (code after fae6d38, fdc4557) *)
 Theorem C05_or_accept_iff : forall H G y1 y2 g1 g2 c1 c2 r1 r2,
   or_verify H G y1 y2 g1 g2 c1 c2 r1 r2 = Accept <->
   Z.abs r1 < gq G /\ Z.abs r2 < gq G /\ Z.abs c1 < gq G /\ Z.abs c2 < gq G /\
+  check_element G y1 = true /\ check_element G y2 = true /\
   exists a1 b1 a2 b2, mpz_powm y1 c1 (gp G) = Some a1 /\ mpz_powm g1 r1 (gp G) = Some b1 /\
     mpz_powm y2 c2 (gp G) = Some a2 /\ mpz_powm g2 r2 (gp G) = Some b2 /\
     (c1 + c2) mod gq G = H (or_hash_input G g1 y1 g2 y2 ((a1 * b1) mod gp G) ((a2 * b2) mod gp G)) mod gq G.
